@@ -42,6 +42,7 @@ var specC01Model = Register(&Spec[VerPair]{
 })
 
 func TestC01_Model(t *testing.T) {
+	longVersions = true
 	specC01Model.Run(t, genVerPair, 100000, 600000)
 }
 
@@ -128,6 +129,7 @@ var specC01Parsed = Register(&Spec[ParsedPair]{
 })
 
 func TestC01_Parsed(t *testing.T) {
+	longVersions = true
 	specC01Parsed.Run(t, genParsedPair, 50000, 300000)
 }
 
@@ -245,6 +247,7 @@ func dpkgRenderable(p VerParts) (string, bool) {
 }
 
 func TestC01_Dpkg(t *testing.T) {
+	longVersions = true
 	if _, err := exec.LookPath("perl"); err != nil {
 		t.Skip("perl not available")
 	}
